@@ -830,11 +830,12 @@ class DFA:
 
         return False
 
-    def append_after(self, chained_dfa: "DFA", sub_states=None, mark_accept=True, chain_actions=None):
+    def append_after(self, chained_dfa: "DFA", sub_states=None, mark_accept=True, chain_actions=None, check_only=False):
         """
         Add the chained_dfa in such a way that its start state "becomes" all of the `sub_states` (or if unspecified, the accept states of _this_ dfa).
 
         If mark_accept is True, we should replace the accept states that we currently have with corresponding ones based on the chained dfa.
+        If check_only is True nothing is joined: only the ambiguity check between the sub_states and the start of the chained dfa is made.
         If chain_actions is not empty, we add those actions to all new transitions. This does _not_ create potential ambiguity, as the original start
         states of chained DFAs are kept in-tact, so loops work properly. In other wors, chain_actions will only be run once and so is a suitable mechanism
         for adding finish actions.
@@ -897,6 +898,8 @@ class DFA:
         # transitions going into the sub_states, instead of on transitions coming out of them that we generate. This adds more opportunities
         # for "unable to schedule strict"-type errors, but avoids missing actions in these cases.
         entry_chain_actions = []
+        if check_only:
+            chain_actions = []
         if chain_actions and chained_dfa.starting_state in chained_dfa.accepting_states:
             if mark_accept and self.starting_state in sub_states and not isinstance(self.starting_state, DFConditionPoint):
                 # Our own starting state is entered without a transition, so there is nothing to place the actions on for it: they go on
@@ -994,8 +997,14 @@ class DFA:
                     culled_transition.attach(*entry_chain_actions, prepend=True)
                 culled_chained_transitions.append(culled_transition)
 
+            if check_only:
+                continue
+
             for new_transition in culled_chained_transitions:
                 sub_state.transition(new_transition, allow_replace_if=lambda x: x.error_handling or x.target in valid_replacers)
+
+        if check_only:
+            return
 
         # Adopt all the states
         for state in chained_dfa.states:
@@ -1054,6 +1063,8 @@ class DFA:
         # (marked as error handling while joining so that it only fills in for what our accept states do not continue with themselves)
         relay_start.transition(DFTransition([DFTransition.Else], fallthrough=True).to(relay_end).attach(*actions).handles_else())
         joined_states = list(self.accepting_states)
+        # what follows still has to be unambiguous against what our accept states continue with themselves
+        self.append_after(chained_dfa, check_only=True)
         self.append_after(relay)
         for state in joined_states:
             for trans in state.transitions:
